@@ -301,9 +301,6 @@ def keyword_root_cause(err, wit_text, keywords, loc_re=r"^(\S+?):(\d+):(\d+): (?
                 if re.search(r"\bmod\s+%s\b|::%s::|::%s\b\s*;" % (tok, tok, tok), src) and not re.search(r"\bfn\b", src):
                     # a package namespace / package / interface name used as a Rust module path segment
                     return "unescaped-keyword:module-path-segment"
-                upper = tok.upper().replace("_", "-")
-                if re.search(r"(?<![\w-])%?" + re.escape(upper) + r"(?![\w-])", wit_text):
-                    return "unescaped-keyword:uppercase-wit-id"
                 return "unescaped-keyword:" + tok
         return None
     return None
@@ -358,16 +355,19 @@ def confirmed_temporary_collision(err, wit_text):
     generator-introduced local (`ret_area`, `cleanup_list`, `ptr0`, ...).
     Anything weaker is left unclassified.  Returns the identifier or None."""
     wit_names = {m.group(0).lower().replace("-", "_") for m in GENERATOR_TEMPORARIES.finditer(wit_text)}
-    wit_names = {n for n in wit_names if len(n) > 2 and not re.fullmatch(r"[a-z]\d*", n)}
+    # only distinctive spellings: `ret_area`, `cleanup_list`, or a numbered local (`ptr0`, `len12`, `result3`)
+    wit_names = {n for n in wit_names if n in ("ret_area", "cleanup_list") or re.fullmatch(r"[a-z]{3,}\d+", n)}
     if not wit_names:
         return None
     for line in err.splitlines():
         m = re.search(r"error(?:\[E\d+\])?: (.*)$", line)
         if not m:
             continue
-        words = set(re.findall(r"[A-Za-z_][A-Za-z0-9_]*", m.group(1)))
-        hit = sorted(wit_names & words)
-        return hit[0] if hit else None
+        for n in sorted(wit_names):
+            # standalone in the message, not a segment of a `a::b::c` path
+            if re.search(r"(?<![:\w])%s(?![:\w])" % re.escape(n), m.group(1)):
+                return n
+        return None
     return None
 
 
